@@ -299,7 +299,11 @@ def exec_case(task, cd):
             del os.environ[k]
     env = {'VERIF_' + n: v['v'] for n, v in task['osEnv'].items() if v['s']}    # the start environment of the model
     t0 = time.time()
-    r = inproc.run_main(['--keep', 'c.case'], cd, trace=True, env=env)
+    # bare: the process environment consists of the model's start environment and NOTHING else (no tracing either:
+    # the guard variable of the hooks would be one more variable), so that un-setting every variable of the model
+    # leaves a set of environment variables that is empty
+    bare = bool(task.get('bare'))
+    r = inproc.run_main(['--keep', 'c.case'], cd, trace=not bare, env=env, bare=bare)
     wall = time.time() - t0
     boxes = cd.sandboxes()
     sds = os.path.join(cd.tmp, boxes[0]) if len(boxes) == 1 else None
@@ -649,6 +653,16 @@ def run(ctx):
         check_cases(ctx, 'every history of the exhaustive configurations', plain, plain_obs, main_pool)
         check_cases(ctx, 'random longer histories (TLC -simulate)', deep, deep_obs, main_pool)
         check_cases(ctx, 'sleeper cases (timeout observed for real)', timed, timed_obs, timed_pool)
+        # the same histories once more where they can EMPTY a set of environment variables: Exactly is started
+        # with the tracked variables of the model's start environment and nothing else
+        unsetting = [dict(c, bare=True) for c in plain + deep if any(i['op'] == 'unset' for i in c['hist'])]
+        if len(unsetting) > (700 if quick else 6000):
+            unsetting = random.Random(ctx.seed + 5).sample(unsetting, 700 if quick else 6000)
+        if len(unsetting) < 100:
+            raise core.MachineryFailure('only %d histories with an unset' % len(unsetting))
+        bare_obs = run_cases(main_pool, unsetting, 60, 10)
+        check_cases(ctx, 'histories with an unset, started with the tracked variables as the whole environment',
+                    unsetting, bare_obs, main_pool)
     finally:
         ex.shutdown(wait=True)
         timed_pool.close()
